@@ -12,6 +12,8 @@
 -/
 import PonyVerif.Lemmas.TranslateMain
 import PonyVerif.Lemmas.Distinct
+import PonyVerif.Lemmas.SqlBEq
+import PonyVerif.Lemmas.Subquery
 namespace PonyVerif.Props.C01
 open PonyVerif.Model.Q
 
@@ -216,5 +218,125 @@ theorem C01_distinct_exact (pk : List String) (items : List Item) (h : needsDist
 example : needsDistinct ["name", "semester"] [.attr "semester"] = true := by decide
 example : needsDistinct ["name", "semester"] [.attr "name", .expr 0] = true := by decide
 example : needsDistinct ["name", "semester"] [.attr "semester", .attr "credits", .attr "name"] = false := by decide
+
+/-! ### the verified checker: what the engine runs on the REAL translator's output on every run -/
+
+/-- **C01_checker_sound** — whenever the checker accepts the conditions the real translator emitted for `e` (decoded from
+    `query._translator.conditions`), those conditions select, on every well-typed row of every database, exactly the rows on which
+    the Python reading of `e` is true — and evaluate without a backend type error. -/
+theorem C01_checker_sound (sch : Schema) (d : Dialect) (L : LikeFn) (e : Expr) (real : SqlList)
+    (hc : checkConditions sch d e real = true) (hL : LikeOK L d) (env : PEnv) (hwt : WT sch env) :
+    ∃ k, evalCond L d (senv d env) (.and real) = some k ∧ (k = .tt ↔ pySelected env e = true) := by
+  simp only [checkConditions, Bool.and_eq_true] at hc
+  obtain ⟨hf, hm⟩ := hc
+  cases hcs : conditions sch d e with
+  | error x => simp [hcs] at hm
+  | ok cs =>
+    simp only [hcs] at hm
+    have := SqlList.beq_eq cs real hm
+    subst this
+    exact C01_cond sch d L env e cs hwt hL hf hcs
+
+/-- **C01_checker_proj_sound** — the same for the column of a projection: an accepted column evaluates to the Python value -/
+theorem C01_checker_proj_sound (sch : Schema) (d : Dialect) (L : LikeFn) (e : Expr) (real : Sql)
+    (hc : checkProjection sch d e real = true) (hL : LikeOK L d) (env : PEnv) (hwt : WT sch env) :
+    ∃ v, py env e = .val v ∧ eval L d (senv d env) real = some (encV d v) := by
+  simp only [checkProjection, Bool.and_eq_true] at hc
+  obtain ⟨⟨hf, hs⟩, hm⟩ := hc
+  cases hcs : projection sch d e with
+  | error x => simp [hcs] at hm
+  | ok s =>
+    simp only [hcs] at hm
+    have := Sql.beq_eq s real hm
+    subst this
+    exact C01_proj sch d L env e s hwt hL hf hs hcs
+
+/-- the checker accepts a non-trivial translation -/
+example : checkConditions sch0 .sqlite (.not (.attr "n"))
+    (.cons (.or (.cons (.cmp .eq (.column "n") (.value (.int 0))) (.cons (.isNull (.column "n")) .nil))) .nil) = true := by decide
+
+/-! ### NULL rules of sub-queries and aggregates -/
+
+/-- **C01_in_subquery** — `x in (<subquery>)`: with or without the IS NOT NULL guard the row is selected iff `x` is among the
+    values that are present (IN needs no guard). -/
+theorem C01_in_subquery (v : Int) (vals : List (Option Int)) (guard : Bool) :
+    sqlIn (some v) (subselect guard vals) = .tt ↔ pyIn v vals = true := by
+  cases guard <;> simp [subselect, sqlIn_tt_iff, pyIn, List.mem_filter]
+
+/-- **C01_not_in_guarded** — `x not in (<subquery>)` with the guard: two-valued, equal to Python's `not in` over the present values. -/
+theorem C01_not_in_guarded (v : Int) (vals : List (Option Int)) :
+    sqlNotIn (some v) (subselect true vals) = K.ofBool (!pyIn v vals) := by
+  simp only [sqlNotIn, subselect, if_true, sqlIn_guarded_two_valued v _ (filter_isSome_no_none vals), contains_filter_isSome, pyIn,
+    K.not_ofBool]
+
+/-- **C01_not_in_rule** — Pony's rule (guard iff the selected monad is flagged nullable) is right whenever the flag is sound
+    (`nullable = False` implies no missing value; after 26b85c0 the flag of an attribute reached through an optional reference, and
+    after 90ae63c the sub-select over a collection of optional references, satisfy this). -/
+theorem C01_not_in_rule (v : Int) (vals : List (Option Int)) (flag : Bool) (hflag : flag = false → none ∉ vals) :
+    sqlNotIn (some v) (subselect (needsGuard true flag) vals) = K.ofBool (!pyIn v vals) := by
+  cases flag with
+  | true => simpa [needsGuard] using C01_not_in_guarded v vals
+  | false =>
+    simp only [needsGuard, Bool.and_false, subselect, Bool.false_eq_true, if_false, sqlNotIn, sqlIn_guarded_two_valued v vals (hflag rfl),
+      pyIn, K.not_ofBool]
+
+/-- the statement without the soundness of the flag -/
+def C01_not_in_rule_full : Prop :=
+  ∀ (v : Int) (vals : List (Option Int)) (flag : Bool), sqlNotIn (some v) (subselect (needsGuard true flag) vals) = K.ofBool (!pyIn v vals)
+
+/-- It is false: an unflagged NULL among the values (the defects repaired in 26b85c0 and 90ae63c:
+    `g.id not in (s.group.id for s in Student)`, `t not in g.students.tutor`) makes NOT IN unknown — no row is returned. -/
+theorem C01_not_in_rule_full_false : ¬ C01_not_in_rule_full := by
+  intro h
+  have := h 2 [some 1, none] false
+  revert this; decide
+
+/-- **C01_agg_sum / count / min / max** — `coalesce(SUM(x), 0)` is Python's `sum` of the values that are present (0 for none);
+    COUNT counts them; MIN / MAX are `None` exactly for no present value and otherwise the least / greatest present value. -/
+theorem C01_agg_sum (vals : List (Option Int)) : ponySum vals = (present vals).foldl (· + ·) 0 := by
+  simp only [ponySum, sqlSum]
+  cases h : present vals <;> simp
+
+theorem C01_agg_count (vals : List (Option Int)) : sqlCount vals = (vals.filter Option.isSome).length := by
+  simp only [sqlCount, present]
+  induction vals with
+  | nil => rfl
+  | cons x xs ih => cases x <;> simp_all [List.filterMap_cons, List.filter_cons]
+
+theorem C01_agg_min (vals : List (Option Int)) :
+    (sqlMin vals = none ↔ present vals = []) ∧ ∀ m, sqlMin vals = some m → m ∈ present vals ∧ ∀ x ∈ present vals, m ≤ x := by
+  simp only [sqlMin]
+  cases h : present vals with
+  | nil => simp
+  | cons a xs =>
+    refine ⟨by simp, fun m hm => ?_⟩
+    simp only [Option.some.injEq] at hm; subst hm
+    obtain ⟨h1, h2, h3⟩ := foldl_min_le xs a
+    refine ⟨?_, ?_⟩
+    · rcases h3 with h3 | h3
+      · rw [h3]; simp
+      · exact List.mem_cons_of_mem _ h3
+    · intro x hx
+      rcases List.mem_cons.1 hx with rfl | hx
+      · exact h1
+      · exact h2 x hx
+
+theorem C01_agg_max (vals : List (Option Int)) :
+    (sqlMax vals = none ↔ present vals = []) ∧ ∀ m, sqlMax vals = some m → m ∈ present vals ∧ ∀ x ∈ present vals, x ≤ m := by
+  simp only [sqlMax]
+  cases h : present vals with
+  | nil => simp
+  | cons a xs =>
+    refine ⟨by simp, fun m hm => ?_⟩
+    simp only [Option.some.injEq] at hm; subst hm
+    obtain ⟨h1, h2, h3⟩ := foldl_max_ge xs a
+    refine ⟨?_, ?_⟩
+    · rcases h3 with h3 | h3
+      · rw [h3]; simp
+      · exact List.mem_cons_of_mem _ h3
+    · intro x hx
+      rcases List.mem_cons.1 hx with rfl | hx
+      · exact h1
+      · exact h2 x hx
 
 end PonyVerif.Props.C01
